@@ -112,6 +112,13 @@ func Check_Segmentation() {
 	conn := &common.FakeConn{ReadData: stream, Cuts: cuts}
 	cp, err := collector.VerifNewCollectingProcess(collector.CollectorInput{Protocol: "tcp", Address: "x"}, nil, 16)
 	sx.Assert(err == nil, "init")
+	// another exporter of the same observation domain announced its template earlier
+	other := sx.Choose("otherConnectionBefore", 2) == 1
+	if other {
+		conn0 := &common.FakeConn{ReadData: templateMsg(), Remote: "10.0.0.9:999"}
+		cp.VerifHandleTCPClient(conn0)
+		sx.Assert(len(drain(cp)) == 1, "other-connection-template")
+	}
 	cp.VerifHandleTCPClient(conn)
 	got := drain(cp)
 
@@ -138,13 +145,21 @@ func Check_Segmentation() {
 	sx.Assert(cp.GetNumConnToCollector() == 0, "client-not-removed")
 	if badAt >= 0 {
 		sx.Reach("closed-after-undecodable-message")
-		// another connection is unaffected
+		// another connection is unaffected: one that announces its template now, or
+		// (otherConnectionBefore) one that announced it before the bad message and
+		// only sends data afterwards
 		d3 := dataVals{sx.U32("v3"), sx.Bytes("s3", 2)}
-		conn2 := &common.FakeConn{ReadData: append(templateMsg(), dataMsg(1, d3)...)}
+		conn2 := &common.FakeConn{ReadData: append(templateMsg(), dataMsg(1, d3)...), Remote: "10.0.0.9:999"}
+		wantMsgs := 2
+		if other {
+			conn2.ReadData = dataMsg(1, d3)
+			wantMsgs = 1
+			sx.Reach("live-other-connection")
+		}
 		cp.VerifHandleTCPClient(conn2)
 		got2 := drain(cp)
-		sx.Assert(len(got2) == 2, "other-connection-affected")
-		el := got2[1].GetSet().GetRecords()[0].GetOrderedElementList()
+		sx.Assert(len(got2) == wantMsgs, "other-connection-affected")
+		el := got2[wantMsgs-1].GetSet().GetRecords()[0].GetOrderedElementList()
 		sx.Assert(sx.And(el[0].GetUnsigned32Value() == d3.v, el[1].GetStringValue() == string(d3.s)), "other-connection-values")
 	} else {
 		sx.Reach("all-delivered")
